@@ -151,6 +151,13 @@ func c07Scenarios(root string, big bool) []c07Scenario {
 		{rec(dagA, 0, 2, 200, 10), rec(dagA, 1000, 3, 200, 0), rec(dagB, 500, 1, 200, 0)},
 		{rec(dagA, 0, 1, 200, 0), rec(dagA, 100, 1, 200, 0), rec(dagA, -86400000, 2, 200, 40)},
 	}
+	// a long history: sorting 12 or more file names is no longer done by a stable insertion
+	// sort, so the two copies of a run in compaction can come out in either order
+	long := []wOp{}
+	for i := 0; i < 14; i++ {
+		long = append(long, rec(dagA, int64(-3600000+i*61000), 1, 200, 0))
+	}
+	priors = append(priors, long)
 	if big {
 		priors = append(priors,
 			[]wOp{rec(dagB, 0, 4, 6000, 5), rec(dagB, 60000, 1, 6000, 0)},
@@ -513,7 +520,7 @@ func init() {
 			return []core.Pass{{Name: "main", Mode: "kill", Shards: 16, Timeout: 60 * time.Minute}}
 		},
 		Exhaustive: func(tier string) bool { return true },
-		Rule:       "A recording worker process (the harness binary calling the real jsondb) first builds a prior history of completed runs (4 (6) priors over 1-2 DAG files: none, one run, runs aged 10/40 days, same-100-ms runs) and then executes a script: {Open, 1-2 (1-3) Write, Close-with-compaction} with 200 B (and 9 KB, two-syscall) status lines, {Update of an older run}, {Rename}, {RemoveOld 7 days}, {Update then a new run}. The ptrace supervisor sysgate numbers every watched system call of the script phase under the data directory (openat-w, write, fsync, close, unlinkat, renameat, mkdirat) and the check ENUMERATES them: the worker is SIGKILLed before EVERY call k, and every write is additionally torn at 1/2 (thorough: 1 byte, 1/4, 1/2, L-1) of its length and then killed. The worker acknowledges each completed operation on a pipe. Oracle on the surviving directory with a fresh store: every previously completed run is returned by FindByRequestID with its last write id (during an un-acked Update old or new; during an un-acked Rename under the old or the new name, never neither; during an un-acked RemoveOld only runs older than the retention may be missing); the interrupted run is returned with a write id >= the last acknowledged; ReadStatusToday answers without error and not with a run older than acknowledged data; ReadStatusRecent(n) contains every run with acknowledged data (a run listed twice pushes another out); no query panics. exhaustive=true refers to the enumeration of system-call boundaries of these scripts. Non-trivial = each kill that was delivered. Distinct = (scenario, k, tear).",
+		Rule:       "A recording worker process (the harness binary calling the real jsondb) first builds a prior history of completed runs (5 (7) priors over 1-2 DAG files: none, one run, runs aged 10/40 days, same-100-ms runs, a long history of 14 runs) and then executes a script: {Open, 1-2 (1-3) Write, Close-with-compaction} with 200 B (and 9 KB, two-syscall) status lines, {Update of an older run}, {Rename}, {RemoveOld 7 days}, {Update then a new run}. The ptrace supervisor sysgate numbers every watched system call of the script phase under the data directory (openat-w, write, fsync, close, unlinkat, renameat, mkdirat) and the check ENUMERATES them: the worker is SIGKILLed before EVERY call k, and every write is additionally torn at 1/2 (thorough: 1 byte, 1/4, 1/2, L-1) of its length and then killed. The worker acknowledges each completed operation on a pipe. Oracle on the surviving directory with a fresh store: every previously completed run is returned by FindByRequestID with its last write id (during an un-acked Update old or new; during an un-acked Rename under the old or the new name, never neither; during an un-acked RemoveOld only runs older than the retention may be missing); the interrupted run is returned with a write id >= the last acknowledged; ReadStatusToday answers without error and not with a run older than acknowledged data; ReadStatusRecent(n) contains every run with acknowledged data (a run listed twice pushes another out); no query panics. exhaustive=true refers to the enumeration of system-call boundaries of these scripts. Non-trivial = each kill that was delivered. Distinct = (scenario, k, tear).",
 		Assumptions: []string{"SIGKILL loses user-space buffers but not the page cache; power loss / fsync ordering is out of scope of the statement",
 			"crash points are the system-call boundaries of the recording process under the data directory"}})
 }
